@@ -216,16 +216,23 @@ class Rig:
     INBOUND = 6_000_000
     CONTROL = 7_000_000
 
-    def __init__(self, role: str, commack_req: int = 0, user_cbs=(), handler_kwargs=None, t3: float = 45):
+    def __init__(self, role: str, commack_req: int = 0, user_cbs=(), handler_kwargs=None, t3: float | None = None, delay=None):
         base = secsgem.gem.GemEquipmentHandler if role == "equipment" else secsgem.gem.GemHostHandler
         cls = base
         if commack_req:
             cls = type(base.__name__ + "Deny", (base,), {"on_commack_requested": lambda self_: commack_req})
         self.role = role
+        # timer settings are part of what is quantified over: a value is passed to the constructor only when one is configured
+        kw = {}
+        if t3 is not None:
+            kw["t3"] = t3
+        if delay is not None:
+            kw["establish_communication_timeout"] = delay
+        self.configured_t3 = 45.0 if t3 is None else t3            # documented defaults: T3 45 s, establish-communications delay 10 s
+        self.configured_delay = 10 if delay is None else delay
         self.settings = MemSettings(
             connect_mode=secsgem.hsms.HsmsConnectMode.PASSIVE,
-            device_type=secsgem.common.DeviceType.EQUIPMENT if role == "equipment" else secsgem.common.DeviceType.HOST,
-            t3=t3, establish_communication_timeout=10)
+            device_type=secsgem.common.DeviceType.EQUIPMENT if role == "equipment" else secsgem.common.DeviceType.HOST, **kw)
         self.log: list = []
         self.h = cls(self.settings, **(handler_kwargs or {}))
         self.p = self.h.protocol
